@@ -164,6 +164,40 @@ func copyLoop(in ion.Reader, out ion.Writer) error {
 }
 
 func init() {
+	// copycat <text|pretty|binary> x<source bytes> <shared table descriptors...>: the same with a catalog on the reader
+	register("copycat", func(a []string) string {
+		if len(a) < 2 {
+			return "badinput"
+		}
+		src, ok := unx(a[1])
+		if !ok {
+			return "badinput"
+		}
+		c := &stCur{a: a[2:]}
+		sts := c.shareds()
+		if !c.done() {
+			return "badinput"
+		}
+		var buf bytes.Buffer
+		var w ion.Writer
+		switch a[0] {
+		case "text":
+			w = ion.NewTextWriter(&buf)
+		case "pretty":
+			w = ion.NewTextWriterOpts(&buf, ion.TextWriterPretty)
+		case "binary":
+			w = ion.NewBinaryWriter(&buf)
+		default:
+			return "badinput"
+		}
+		if err := copyLoop(ion.NewReaderCat(bytes.NewReader(src), ion.NewCatalog(sts...)), w); err != nil {
+			return "err loop"
+		}
+		if err := w.Finish(); err != nil {
+			return "err finish"
+		}
+		return "ok " + xhex(buf.Bytes())
+	})
 	// copy <text|pretty|binary> x<source bytes>: reader -> writer with the documented loop
 	register("copy", func(a []string) string {
 		if len(a) < 2 {
